@@ -123,6 +123,51 @@ def judge(registered, grammar_rrel, falsy=False):
     return got != want, {'got': got, 'expected': want}, exp
 
 
+# ---------------------------------------------------------------- the same RREL text in both places
+F_GRAMMAR = """
+Model: boxes+=Box users+=User;
+Box: 'box' name=STRING '{' objs*=Obj '}';
+Obj: 'obj' name=ID;
+User: 'user' name=ID 'ref' r=[Obj:ID%s] ('also' rs+=[Obj:ID%s])*;
+"""
+F_MODEL = ('box "p q" { obj a } box "t\\\\x" { obj a obj b } box "t\\x" { obj a obj c } box "it\'s" { obj a obj d } '
+           'box "tab\\there" { obj a obj e } user u ref a also a')
+F_EXPRS = ["boxes.objs", "'p q'~boxes.objs", "'t\\x'~boxes.objs", "'it\\'s'~boxes.objs", "'tab\\there'~boxes.objs",
+           "'nope'~boxes.objs,'p q'~boxes.objs", "+p:'t\\x'~boxes.objs"]
+
+
+def rrel_forms_scenario():
+    """an RREL text (with fixed names that contain quotes and backslashes) registered as a string resolves
+    exactly like the same text written in the grammar"""
+    from textx import metamodel_from_str
+    from textx.exceptions import TextXError
+    problems = []
+
+    def outcome(mm):
+        try:
+            m = mm.model_from_str(F_MODEL)
+        except TextXError as e:
+            return ('error', 'Unknown object' if 'Unknown object' in str(e) else str(e)[:50])
+        except Exception as e:  # noqa
+            return ('exception', type(e).__name__)
+        u = m.users[0]
+        return ('ok', [o.parent.name for o in [u.r] + list(u.rs)])
+    for e in F_EXPRS:
+        try:
+            in_grammar = outcome(metamodel_from_str(F_GRAMMAR % ('|' + e, '|' + e)))
+        except Exception as ex:  # noqa
+            in_grammar = ('grammar-error', type(ex).__name__)
+        mm = metamodel_from_str(F_GRAMMAR % ('', ''))
+        try:
+            mm.register_scope_providers({'User.*': e})
+            registered = outcome(mm)
+        except Exception as ex:  # noqa
+            registered = ('grammar-error', type(ex).__name__)
+        if in_grammar != registered:
+            problems.append('RREL %s: written in the grammar %s, registered as a string %s' % (e, in_grammar, registered))
+    return problems
+
+
 def explore(item):
     grammar_rrel, = item
     ctx = Ctx(10000, max_paths=100000, free_selectors=True)
@@ -167,6 +212,10 @@ def main():
             chk.violation('registered %s, grammar RREL %s: %s' % (registered, r['grammar_rrel'], detail),
                           {'registered': registered, 'grammar_rrel': r['grammar_rrel']})
         chk.sample({'grammar_rrel': r['grammar_rrel'], 'configurations': r['paths'], 'wrong': r['nbad']})
+    for pr in rrel_forms_scenario()[:3]:
+        chk.violation(pr, {'rrel_forms': True})
+    paths += len(F_EXPRS)
+    chk.cov['bounds']['rrel_forms'] = 'grammar form vs registered string for %d expressions with fixed names (quotes, backslashes)' % len(F_EXPRS)
     chk.cov['paths_explored'] = paths
     chk.cov['evaluations'] = paths
     chk.cov['distinct_nontrivial'] = paths
@@ -175,6 +224,9 @@ def main():
 
 
 def replay(data):
+    if data.get('rrel_forms'):
+        pr = rrel_forms_scenario()
+        return bool(pr), pr[:3]
     reg = dict(data['registered'])
     falsy = reg.pop('falsy_provider_objects', False)
     bad, detail, exp = judge(reg, data['grammar_rrel'], falsy)
